@@ -256,6 +256,107 @@ def oracle(c, out):
     return None
 
 
+# ---------------------------------------------------------------- the restarting speaker (outside Session.Gr; oracle only)
+RS_LOCAL = ["10.8.0.0/24", "10.8.1.0/24"]
+RS_PEERS = {"a": ("10.0.0.1", 65001, True), "b": ("10.0.0.2", 65002, True), "c": ("10.0.0.3", 65003, False)}     # name -> addr, AS, GR configured
+RS_DEFER = 30
+
+
+def restarting_case(rng):
+    """The speaker has restarted (every neighbour starts with LocalRestarting, deferral time 30 s): it withholds its
+    advertisements until every peer configured for graceful restart has established and sent End-of-RIB (a peer that comes
+    up without the capability is not waited for), or until 30 s after a peer's establishment for that peer."""
+    ev = []
+    est, eor = {}, set()
+    names = list(RS_PEERS)
+    now = 0
+    for _ in range(rng.choice([4, 7, 10, 14])):
+        r = rng.random()
+        p = rng.choice(names)
+        if r < 0.35 and p not in est:
+            cap = RS_PEERS[p][2] and rng.random() < 0.85
+            ev.append(("up", p, cap))
+            est[p] = now
+        elif r < 0.6 and p in est and p not in eor:
+            ev.append(("eor", p))
+            eor.add(p)
+        elif r < 0.72 and p in est:
+            ev.append(("ann", p, rng.randrange(2)))
+        elif r < 0.9:
+            d = rng.choice([1, 5, 10, 14, 16, 31])
+            ev.append(("sleep", d))
+            now += d
+        else:
+            ev.append(("obs",))
+        if rng.random() < 0.5:
+            ev.append(("obs",))
+    ev.append(("obs",))
+    return {"restarting": True, "events": ev}
+
+
+def restarting_line(c):
+    steps = ["(apiadd (a %s 0 () - - 0 () - ()))" % pf for pf in RS_LOCAL]
+    for e in c["events"]:
+        if e[0] == "up":
+            steps.append("(up %s now%s)" % (e[1], " gr=60" if e[2] else ""))
+        elif e[0] == "eor":
+            steps.append("(eor %s)" % e[1])
+        elif e[0] == "ann":
+            steps.append("(upd %s (a 10.%d.%d.0/24 0 (%d) - - 0 () - ()))" % (e[1], 20 + "abc".index(e[1]), e[2], RS_PEERS[e[1]][1]))
+        elif e[0] == "sleep":
+            steps.append("(sleep %d)" % e[1])
+        else:
+            steps.append("(obs)")
+    peers = " ".join("(%s %s %d%s restarting=%d)" % (n, a, asn, " gr=120" if gr else "", RS_DEFER) for n, (a, asn, gr) in RS_PEERS.items())
+    return "(sim (global 65000 1.1.1.1 sync) (peers %s) (steps %s))" % (peers, " ".join(steps))
+
+
+def restarting_oracle(c, out):
+    r = simlib.split_output(out)
+    if r is None:
+        return ("harness-error", "the scenario did not complete: " + out[:300])
+    obs = r[0]
+    now, k = 0, 0
+    est, cap, eor, ann = {}, {}, set(), {}
+    released = None                 # the time at which "every GR peer has sent End-of-RIB" became true
+    for e in c["events"]:
+        t = e[0]
+        if t == "up":
+            est[e[1]], cap[e[1]] = now, e[2]
+        elif t == "eor":
+            eor.add(e[1])
+        elif t == "ann":
+            ann.setdefault(e[1], set()).add("10.%d.%d.0/24" % (20 + "abc".index(e[1]), e[2]))
+        elif t == "sleep":
+            now += e[1]
+        if released is None and t in ("up", "eor"):
+            if all((n in est) and ((not cap[n]) or n in eor) for n, (_, _, gr) in RS_PEERS.items() if gr):
+                released = now
+        if t == "obs":
+            if k >= len(obs):
+                return ("harness-error", "missing observation")
+            o = obs[k]
+            k += 1
+            for n in RS_PEERS:
+                pd = o["peers"].get(n, {})
+                if n not in est:
+                    continue
+                held = sorted(x.split("#")[0] for x in pd.get("view", {}))
+                may = (released is not None and released <= now) or est[n] + RS_DEFER <= now
+                # liveness is claimed through the deferral timer only: "until every GR peer has sent End-of-RIB OR the deferral timer
+                # fires" allows the speaker to wait for the timer (gobgp does when a peer's own timer fired before its End-of-RIB came)
+                must = est[n] + RS_DEFER < now
+                full = sorted(set(RS_LOCAL) | {pf for q, s_ in ann.items() if q != n for pf in s_})
+                if held and not may:
+                    waiting = [q for q, (_, _, gr) in RS_PEERS.items() if gr and not ((q in est) and ((not cap.get(q)) or q in eor))]
+                    return ("restarting-speaker-advertises-too-early", "%s holds %s at t=%d although %s has not sent End-of-RIB (or is not even up) and its own deferral time runs until t=%d"
+                            % (n, held, now, waiting, est[n] + RS_DEFER))
+                if must and held != full:
+                    return ("restarting-speaker-keeps-withholding", "%s holds %s at t=%d; every graceful-restart peer has sent End-of-RIB since t=%s / its deferral time ended at t=%d; the table has %s"
+                            % (n, held, now, released, est[n] + RS_DEFER, full))
+    return None
+
+
 def shrink_candidates(c):
     ev = c["events"]
     for i in range(len(ev) - 1):
@@ -266,16 +367,24 @@ def shrink_candidates(c):
 def run(ctx):
     proof = core.coq_properties("C12")
     ctx.say("proof stage: ok=%s theorems=%d audit=%d (%.1fs)" % (proof["ok"], len(proof["theorems"]), len(proof["audit"]), proof.get("wall_s", 0)))
-    n = ctx.scale(2000, 60000)
+    n = ctx.scale(2000, 20000)
     cases = [gen_case(ctx.rng) for _ in range(n)]
     cov = core.differential(ctx, "gr", proof, cases, sim_line, oracle, norm_impl=norm_impl, norm_model=norm_model, model_line_of=model_line,
                             shrink_candidates=shrink_candidates, nontrivial=lambda c: sum(1 for e in c["events"] if e[0] == "loss") >= 1,
                             more_cases=lambda: [gen_case(ctx.rng) for _ in range(n)],
                             correspondence_name="established()/handleFSMMessage PeerDown+EOR+restart-timer/StaleAll/DropStale vs Session.Gr.gstep",
                             impl_spec=IMPL_SPEC, model_name="gr")
+    # the restarting-speaker side (selection deferral): whole server, decided by the oracle
+    rcases = [restarting_case(ctx.rng) for _ in range(ctx.scale(600, 8000))]
+    cov2 = core.differential(ctx, "gr", proof, rcases, restarting_line, restarting_oracle, model_applies=lambda c: False, nontrivial=lambda c: True,
+                             model_line_of=lambda c: model_line({"cfg": {"gr": True, "notif": False, "local_rt": 120}, "events": [("obs",)]}),
+                             correspondence_name="handleFSMMessage (Established / End-of-RIB with LocalRestarting, deferral timer) on a restarting speaker; oracle: RFC 4724 4.1 as the property words it",
+                             impl_spec=IMPL_SPEC, model_name="gr")
+    for kk in ("evaluations", "distinct_nontrivial", "traces_validated_against_impl"):
+        cov[kk] = cov.get(kk, 0) + cov2.get(kk, 0)
     pc = core.proof_coverage(proof)
     pc.update(cov)
-    evc = {}
+    evc = {"restarting-speaker-scenarios": len(rcases)}
     for c in cases:
         for e in c["events"]:
             k = e[0] + ("-" + e[1] if e[0] == "loss" else "")
